@@ -83,6 +83,10 @@ def update_post(prog: Program, at_frame: bool, has_next: bool):
                 a, b = test.left, test.comparators[0]
                 lhs, rhs = it.num(it.eval(a, fr)), it.num(it.eval(b, fr))
                 d = lhs - rhs  # idx + c - len
+                if d.coeff("idx(step)") == NF.const(-1):
+                    # written the other way round (len(steps) > i + 1): the same test with the sides exchanged
+                    d = -d
+                    op = {"lt": "gt", "gt": "lt", "le": "ge", "ge": "le"}.get(op, op)
                 c = d - NF.atom("idx(step)") + NF.atom("len(steps)")
                 if c.is_const():
                     cv = c.const_value()
@@ -421,7 +425,12 @@ def step_tables(prog: Program, rep: Report) -> None:
     def ox(e):  # expand names bound in the outer loop body (nrecords = num_frames[fname])
         return unparse(_Subst(odefs).visit(copy.deepcopy(e)))
 
-    trip_ok = isinstance(inner.iter, ast.Call) and unparse(inner.iter.func) == "range" and len(inner.iter.args) == 1 and ox(inner.iter.args[0]) == f"num_frames[{fvar}]"
+    rargs = list(inner.iter.args) if isinstance(inner.iter, ast.Call) and unparse(inner.iter.func) == "range" and not inner.iter.keywords else []
+    if len(rargs) == 3 and unparse(rargs[2]) == "1":
+        rargs = rargs[:2]  # range(a, b, 1)
+    if len(rargs) == 2 and unparse(rargs[0]) == "0":
+        rargs = rargs[1:]  # range(0, n)
+    trip_ok = len(rargs) == 1 and ox(rargs[0]) == f"num_frames[{fvar}]"
     rep.check(rule, fi.qual, f"loops: {short(o, 40)} / {short(inner, 50)}", unparse(o.iter) == "files" and trip_ok, what_bad="frames must be enumerated file by file, 0..num_frames[file]-1", what_ok="file-major, frame-minor", loc=fi.loc(o))
     # loop summary: every integer variable v is  init + a*F (+ b*i at the point of use), F = frames in the
     # preceding files, i = frame number within the file; the index into `steps` must come out as F + i
@@ -544,6 +553,10 @@ def run(prog: Program, rep: Report, tier: str) -> None:
     sorted_steps(prog, rep)
     fractional(prog, rep)
     step_tables(prog, rep)
+    from ..share import share
+
+    share(prog, rep, "C13", ("R13.2", "R13.7"), "R03.9", "forcing frames are mapped to step numbers with the clock's own arithmetic, relative to the start, at full resolution", 6)
+
 
 
 from ..selftest import Mut  # noqa: E402
